@@ -48,6 +48,29 @@ def run_print_op(lay, name):
     return getattr(lay, name)
 
 
+import findings  # noqa: E402
+
+
+@findings.predicate("c12_nonlocal_sort")
+def _c12_nonlocal_sort(v, params):
+    """crash while sorting along a non-innermost axis (one of the two operations of the case is sort/argsort at an axis
+    other than the last one of the layout)"""
+    case = v.get("case") or {}
+    if v.get("kind") != "crash" or "layout" not in case:
+        return False
+    try:
+        d = layouts.from_json(case["layout"])
+        lo, hi = layoutsem.minmax_depth(d)
+    except Exception:  # noqa: B902
+        return False
+    for name, args in case.get("ops", []):
+        if name in ("sort", "argsort"):
+            ax = args[0]
+            if ax not in (-1, hi - 1):
+                return True
+    return False
+
+
 class C12(runner.Check):
     id = "C12"
     level = "model_checking"
@@ -214,14 +237,19 @@ class C12(runner.Check):
                                 return {"part": "print", "layout": layouts.to_json(d), "op": name}
             else:
                 types = values.TYPES_QUICK if tier == "quick" else values.TYPES_THOROUGH
-                T = types[x]
                 N, M, cap = (2, 2, 12) if tier == "quick" else (3, 2, 18)
+                if part == "long":
+                    universe = self._long_universe(tier, x)
+                    nenc, cap = 3, 10 ** 9
+                else:
+                    universe = ((types[x], tvs) for tvs in values.arrays(types[x], N, M, 5))
+                    nenc = None
                 nvals = 0
-                for tvs in values.arrays(T, N, M, 5):
+                for T, tvs in universe:
                     nvals += 1
                     if nvals > cap:
                         break
-                    for d, names in encs.encodings(T, tvs, 1, True):
+                    for d, names in list(encs.encodings(T, tvs, 1, True))[:nenc]:
                         ops = [(n, a) for n, a, _ in opalpha.ops_for(d, T, "quick", small=(tier == "quick"))]
                         for k, (n1, a1) in enumerate(ops):
                             partners = [ops[(k * 7 + 3) % len(ops)]] if tier == "quick" else [ops[(k * 7 + 3) % len(ops)], ops[(k * 11 + 5) % len(ops)]]
